@@ -1,2 +1,3 @@
 import DDS.Props.All
+import DDS.Props.NonVacuity
 import DDS.Driver
